@@ -124,6 +124,17 @@ func checkC10(w *SketchWorld, slot int) (fails []mc.Fail) {
 	} else if abs > 1e-300 {
 		mc.Allow("C10 compensated sum", d/tol)
 	}
+	// the encoding of the plain sketch underneath carries no statistics: the
+	// decoder of the exact variant must refuse it, or build a sketch that is
+	// consistent with its bins (never "empty" while holding weight)
+	var plainEnc []byte
+	e.DDSketch.Encode(&plainEnc, false)
+	if dec, err := ddsketch.DecodeDDSketchWithExactSummaryStatistics(plainEnc, sl.Store.Provider(), nil); err == nil {
+		bins := dec.GetZeroCount() + dec.GetPositiveValueStore().TotalCount() + dec.GetNegativeValueStore().TotalCount()
+		if dec.GetCount() != bins || dec.IsEmpty() != (bins == 0) {
+			fail("C10.count", "the statistics-free encoding of the sketch underneath was accepted by the exact-variant decoder and gives count=%v empty=%v with bins of total weight %v", dec.GetCount(), dec.IsEmpty(), bins)
+		}
+	}
 	qs := []float64{0, 0.01, 0.25, 0.5, 0.75, 0.99, 1}
 	batch, berr := e.GetValuesAtQuantiles(qs)
 	for i, p := range qs {
